@@ -192,7 +192,7 @@ def unit_tie(ctx):
                                "merge_transforms, and merged vs original object; non-trivial = nesting >= 2")
     uo = ctx.unit("identities-oracle", "the three identities of the statement recomputed through public methods on the generated "
                                        "distributions (implementation only)")
-    n_dists = 12 if ctx.quick else 240
+    n_dists = 12 if ctx.quick else 150
     shapes = [(), (1,), (2,), (3,)]
     work, reqs = [], []
     for i in range(n_dists):
